@@ -616,7 +616,7 @@ void h_lbuf_replace_bounded(void)
 	int omark[NMARKS];
 	char txt[5];
 	int i, k, n = nondet_int(), pos = nondet_int(), n_del = nondet_int(), tl = nondet_int(), has_txt = nondet_bool();
-	__CPROVER_assume(0 <= n && n <= B_MAXLN && 0 <= pos && 0 <= n_del && pos + n_del <= n);
+	__CPROVER_assume(0 <= n && n <= B_MAXLN && 0 <= pos && pos <= n && 0 <= n_del && n_del <= n - pos);
 	lb->ln_n = n;
 	lb->ln_sz = 3;
 	lb->ln = malloc(3 * sizeof(char *));
@@ -763,6 +763,60 @@ void h_lbuf_opt(void)
 	LB_GHOST_INIT();
 	g_LC = nondet_int(); g_lopt_done_calls = nondet_int(); g_oldbyte = nondet_char();
 	lbuf_opt(lb, buf, pos, n_del);
+#ifdef CANARY
+	__CPROVER_assert(0, "canary");
+#endif
+}
+
+/* ================================================================== lbuf_opt: BOUNDED check of the logged entry and of history preservation (C04) */
+/* real lbuf_opt with CBMC's malloc/memcpy/memset models; history tables of capacity 0 or 2 (so that
+ * appending makes them grow 0 -> 128 and 2 -> 4), up to 2 entries, every undo cursor, every mark value */
+void lbuf_opt_frame_contract(struct lbuf *lb, char *buf, int pos, int n_del)
+__CPROVER_requires(lb != 0)
+__CPROVER_assigns(lb->hist, lb->hist_sz, lb->hist_n, lb->hist_u, g_lopt_done_calls, __CPROVER_object_upto(lb->mark, sizeof(lb->mark)), __CPROVER_object_upto(lb->mark_off, sizeof(lb->mark_off));
+	lb->hist != 0: __CPROVER_object_whole(lb->hist))
+__CPROVER_frees(lb->hist)
+;
+void h_lbuf_opt_bounded(void)
+{
+	struct lbuf *lb = malloc(sizeof(*lb));
+	int i, pos = nondet_int(), n_del = nondet_int(), has_buf = nondet_bool();
+	struct lopt old[2];
+	LB_GHOST_INIT();
+	lb->ln_n = nondet_int();
+	__CPROVER_assume(0 <= lb->ln_n && lb->ln_n <= 4 && 0 <= pos && pos <= lb->ln_n && 0 <= n_del && n_del <= lb->ln_n - pos);
+	lb->hist_sz = nondet_bool() ? 2 : 0;
+	lb->hist = lb->hist_sz ? malloc(2 * sizeof(struct lopt)) : (struct lopt *) 0;
+	lb->hist_n = nondet_int(); lb->hist_u = nondet_int();
+	__CPROVER_assume(0 <= lb->hist_u && lb->hist_u <= lb->hist_n && lb->hist_n <= lb->hist_sz);
+	lb->useq = nondet_int();
+	for (i = 0; i < 2; i++)
+		if (i < lb->hist_n) {
+			lb->hist[i].ins = lb->hist[i].del = 0;
+			lb->hist[i].mark = lb->hist[i].mark_off = 0;
+			lb->hist[i].pos = nondet_int(); lb->hist[i].n_ins = nondet_int(); lb->hist[i].n_del = nondet_int();
+			lb->hist[i].pos_off = nondet_int(); lb->hist[i].seq = nondet_int();
+			old[i] = lb->hist[i];
+		}
+	for (i = 0; i < NMARKS; i++) {
+		lb->mark[i] = nondet_int();
+		lb->mark_off[i] = nondet_int();
+	}
+	int u0 = lb->hist_u, n0 = lb->hist_n, done0 = g_lopt_done_calls;
+	g_LC = nondet_int();
+	lbuf_opt(lb, has_buf ? g_sb_text : (char *) 0, pos, n_del);
+	__CPROVER_assert(lb->hist_n == u0 + 1 && lb->hist_u == lb->hist_n && lb->hist_n <= lb->hist_sz, "lbuf_opt: the redo branch is discarded and one entry appended at the undo cursor");
+	__CPROVER_assert(g_lopt_done_calls == done0 + (n0 - u0), "lbuf_opt: every entry of the discarded redo branch is released");
+	struct lopt *lo = &lb->hist[u0];
+	__CPROVER_assert(lo->pos == pos && lo->n_del == n_del && lo->seq == lb->useq, "lbuf_opt: the entry records position, deleted count and the current sequence number");
+	__CPROVER_assert(lo->del == (n_del ? g_cp_text : (char *) 0) && lo->ins == (has_buf ? g_dup_text : (char *) 0) && lo->n_ins == (has_buf ? g_LC : 0),
+		"lbuf_opt: the entry holds the deleted text, a copy of the inserted text and its line count");
+	for (i = 0; i < 2; i++)
+		if (i < u0)
+			__CPROVER_assert(lb->hist[i].pos == old[i].pos && lb->hist[i].n_ins == old[i].n_ins && lb->hist[i].n_del == old[i].n_del &&
+				lb->hist[i].seq == old[i].seq && lb->hist[i].pos_off == old[i].pos_off && lb->hist[i].ins == old[i].ins && lb->hist[i].del == old[i].del &&
+				lb->hist[i].mark == old[i].mark && lb->hist[i].mark_off == old[i].mark_off,
+				"lbuf_opt: the history below the undo cursor is kept, field for field, also when the table grows");
 #ifdef CANARY
 	__CPROVER_assert(0, "canary");
 #endif
